@@ -1,85 +1,104 @@
 (** C20 -- the nearest enclosing tasks module is the one loaded, with its
     project dir.  Statements only; proofs in Proofs/C20_loader.v.
 
-    Model: Model/LoaderModel.v (FilesystemLoader.find, Loader.load) over the
-    abstract file system of Common/FsTypes.v.  [guard_abs]: absolute
-    normalised start directory below "/", every ancestor listable,
-    os.listdir("") raising FileNotFoundError (OS contract). *)
-From InvokeVerif Require Import Model.LoaderModel Spec.C20Spec Proofs.C20_loader.
+    Model: Model/LoaderModel.v (FilesystemLoader.find as of a51b5ff: walk over
+    os.path.abspath(start), root included; Loader.load) over the abstract file
+    system of Common/FsTypes.v.
+    What is left of the guard, [guard_exists]: the collection name is a plain
+    path component, and the start directory exists -- it and every directory
+    above it can be listed.  (A start directory that does not exist is outside
+    the property's quantifier; the code answers CollectionNotFound at once.)
+    The start may be absolute or relative to the working directory and may
+    contain ".", "..", doubled or trailing separators: all are normalised
+    lexically (abspath, not realpath -- symlinked directories stay as named). *)
+From InvokeVerif Require Import Model.LoaderModel Spec.C20Spec Proofs.C20_loader Proofs.C20_historical.
 
 (** The loaded module is the candidate (module first, else package) of the
-    nearest ancestor, start included; otherwise collection-not-found.
-    Missing for full strength: a candidate in "/" (F-C20), relative starts (F-C20b). *)
-Theorem C20_nearest_partial :
-  forall fs cwd name comps,
-    guard_abs fs comps name = true -> root_clear fs name = true ->
-    load fs cwd name (dir_str comps) = to_loaded (expected fs name comps).
-Proof. exact nearest_partial. Qed.
+    nearest directory at or above the start point, the root included;
+    otherwise collection-not-found.  Full strength. *)
+Theorem C20_nearest :
+  forall fs cwd name start,
+    guard_exists fs cwd start name = true ->
+    load fs cwd name start = to_loaded (expected fs name (abs_comps cwd start)).
+Proof. exact nearest. Qed.
 
-(** Flagship: on that region the model satisfies the executable specification. *)
-Theorem C20_spec_partial :
-  forall fs cwd name comps,
-    guard_abs fs comps name = true -> root_clear fs name = true ->
-    spec_ok fs cwd (dir_str comps) name (obs_of (load fs cwd name (dir_str comps))) = true.
-Proof. exact spec_partial. Qed.
+(** Flagship: the model satisfies the executable specification. *)
+Theorem C20_spec :
+  forall fs cwd name start,
+    guard_exists fs cwd start name = true ->
+    spec_ok fs cwd start name (obs_of (load fs cwd name start)) = true.
+Proof. exact spec_full. Qed.
 
-(** F-C20: tasks.py in "/" is not found from /a. *)
-Theorem C20_nearest_refuted :
-  guard_abs fs_root ["a"] "tasks" = true /\
-  load fs_root "/" "tasks" (dir_str ["a"]) = NotFound /\
-  expected fs_root "tasks" ["a"] = Some ("/tasks.py", "/") /\
-  spec_ok fs_root "/" (dir_str ["a"]) "tasks" (obs_of (load fs_root "/" "tasks" (dir_str ["a"]))) = false.
-Proof. exact root_refutes. Qed.
-
-(** F-C20b: relative start "d1" from cwd /w holding tasks.py: not found. *)
-Theorem C20_relative_start_refuted :
-  load fs_rel "/w" "tasks" "d1" = NotFound /\
-  expected fs_rel "tasks" (abs_comps "/w" "d1") = Some ("/w/tasks.py", "/w") /\
-  spec_ok fs_rel "/w" "d1" "tasks" (obs_of (load fs_rel "/w" "tasks" "d1")) = false.
-Proof. exact relative_refutes. Qed.
-
-(** Never a farther candidate: whatever is loaded is the candidate of an
-    ancestor below the root and no nearer ancestor offers one (full strength on
-    [guard_abs], root candidate or not). *)
+(** Never a farther candidate. *)
 Theorem C20_never_farther :
-  forall fs cwd name comps f p,
-    guard_abs fs comps name = true ->
-    load fs cwd name (dir_str comps) = Loaded f p ->
-    exists j, 1 <= j <= List.length comps /\
+  forall fs cwd name start f p,
+    guard_exists fs cwd start name = true ->
+    load fs cwd name start = Loaded f p ->
+    let comps := abs_comps cwd start in
+    exists j, j <= List.length comps /\
       candidate fs name (dir_str (firstn j comps)) = Some (f, p) /\
       forall k, j < k <= List.length comps -> candidate fs name (dir_str (firstn k comps)) = None.
 Proof. exact loaded_is_nearest. Qed.
 
-(** Project location, about the model's own answer: what [load] reports is
-    Path(file).parent for a module name.py and one level further up for a
-    package name/__init__.py. *)
+(** Project location, about the model's own answer: Path(file).parent for a
+    module name.py, one level further up for a package name/__init__.py. *)
 Theorem C20_parent :
-  forall fs cwd name comps f p,
-    guard_abs fs comps name = true ->
-    load fs cwd name (dir_str comps) = Loaded f p ->
+  forall fs cwd name start f p,
+    guard_exists fs cwd start name = true ->
+    load fs cwd name start = Loaded f p ->
     (f = child p (name ++ ".py") /\ p = path_parent f) \/
     (f = child (child p name) "__init__.py" /\ p = path_parent (path_parent f)).
 Proof. exact parent_of_loaded. Qed.
 
-(** F-C20c: start "/a/b/.." (= /a) loads /a/b/tasks.py although /a/b is not
-    at or above the start point. *)
-Theorem C20_dotdot_start_refuted :
-  load fs_dotdot "/" "tasks" "/a/b/.." = Loaded "/a/b/tasks.py" "/a/b" /\
-  abs_comps "/" "/a/b/.." = ["a"] /\
-  expected fs_dotdot "tasks" (abs_comps "/" "/a/b/..") = None /\
-  spec_ok fs_dotdot "/" "/a/b/.." "tasks" (obs_of (load fs_dotdot "/" "tasks" "/a/b/..")) = false.
-Proof. exact dotdot_refutes. Qed.
-
-(** No candidate at any ancestor (root included): collection-not-found. *)
+(** No candidate at any directory at or above the start: collection-not-found. *)
 Theorem C20_not_found :
-  forall fs cwd name comps,
-    guard_abs fs comps name = true -> expected fs name comps = None ->
-    load fs cwd name (dir_str comps) = NotFound.
+  forall fs cwd name start,
+    guard_exists fs cwd start name = true -> expected fs name (abs_comps cwd start) = None ->
+    load fs cwd name start = NotFound.
 Proof. exact not_found. Qed.
 
-(** Non-vacuity: a module shadows a farther package; a package found from its parent. *)
+(** Normalised start components are always plain (no hypothesis on the start string). *)
+Theorem C20_start_normalised :
+  forall cwd start, comps_okb (abs_comps cwd start) = true.
+Proof. exact abs_comps_ok. Qed.
+
+(** Non-vacuity: a module shadows a farther package; a relative start with
+    ".." components. *)
 Example C20_example :
-  guard_abs fs_ex ["p"; "q"; "r"; "s"] "tasks" = true /\ root_clear fs_ex "tasks" = true /\
+  guard_exists fs_ex "/" "/p/q/r/s" "tasks" = true /\
   load fs_ex "/" "tasks" "/p/q/r/s" = Loaded "/p/q/tasks.py" "/p/q" /\
-  load fs_ex "/" "tasks" "/p" = Loaded "/p/tasks/__init__.py" "/p".
+  load fs_ex "/p/q" "tasks" "r/../../x/.." = Loaded "/p/tasks/__init__.py" "/p".
 Proof. exact example_nearest. Qed.
+
+(** The former witnesses of F-C20 / F-C20b / F-C20c now behave as specified. *)
+Example C20_former_findings_fixed :
+  load fs_root "/" "tasks" "/a" = Loaded "/tasks.py" "/" /\
+  load fs_rel "/w" "tasks" "d1" = Loaded "/w/tasks.py" "/w" /\
+  load fs_dotdot "/" "tasks" "/a/b/.." = NotFound /\
+  guard_exists fs_root "/" "/a" "tasks" = true /\ guard_exists fs_rel "/w" "d1" "tasks" = true /\
+  guard_exists fs_dotdot "/" "/a/b/.." "tasks" = true.
+Proof. exact former_findings_fixed. Qed.
+
+(** * Historical (fixed by a51b5ff): the walk over the prefixes of the start
+    string as given ([load_old], Proofs/C20_historical.v) *)
+
+(** F-C20: tasks.py in "/" was not found from /a. *)
+Theorem C20_nearest_historical_refuted :
+  load_old fs_root "/" "tasks" "/a" = NotFound /\
+  expected fs_root "tasks" (abs_comps "/" "/a") = Some ("/tasks.py", "/") /\
+  spec_ok fs_root "/" "/a" "tasks" (obs_of (load_old fs_root "/" "tasks" "/a")) = false.
+Proof. exact root_historical_refutes. Qed.
+
+(** F-C20b: relative start "d1" from cwd /w holding tasks.py: not found. *)
+Theorem C20_relative_start_historical_refuted :
+  load_old fs_rel_old "/w" "tasks" "d1" = NotFound /\
+  expected fs_rel_old "tasks" (abs_comps "/w" "d1") = Some ("/w/tasks.py", "/w") /\
+  spec_ok fs_rel_old "/w" "d1" "tasks" (obs_of (load_old fs_rel_old "/w" "tasks" "d1")) = false.
+Proof. exact relative_historical_refutes. Qed.
+
+(** F-C20c: start "/a/b/.." (= /a) loaded /a/b/tasks.py. *)
+Theorem C20_dotdot_start_historical_refuted :
+  load_old fs_dotdot_old "/" "tasks" "/a/b/.." = Loaded "/a/b/tasks.py" "/a/b" /\
+  expected fs_dotdot_old "tasks" (abs_comps "/" "/a/b/..") = None /\
+  spec_ok fs_dotdot_old "/" "/a/b/.." "tasks" (obs_of (load_old fs_dotdot_old "/" "tasks" "/a/b/..")) = false.
+Proof. exact dotdot_historical_refutes. Qed.
